@@ -37,6 +37,7 @@ func c02Run(c *Ctx) {
 		{"L0", GenOpts{LeafSet: 1}, 0, nil},
 		{"L1", GenOpts{OneGate: true, LeafSet: 1}, 1, nil},
 	}
+	layers = append(layers, sweepLayer{"scale", GenOpts{Scale: true, ScaleThorough: c.Thorough()}, 0, nil})
 	fsets := flagsQ
 	if c.Thorough() {
 		layers = append(layers, sweepLayer{"L2", GenOpts{OneGate: true, LeafSet: 1}, 2, nil})
@@ -154,7 +155,16 @@ func c02Run(c *Ctx) {
 					}
 				}
 			}
-			Explore(body, ExploreOpts{Bound: 2}, func(x *X) {
+			// scale layer: the joint re-assignments only (all secrets equal / all re-assigned) for widths and depths,
+			// plus every single re-assignment of the long literal for the length kinds
+			bound := 2
+			if sc.Layer == "scale" {
+				bound = 0
+				if len(cs.Prods) > 0 && strings.Contains(cs.Prods[0], ":length=") {
+					bound = 1
+				}
+			}
+			Explore(body, ExploreOpts{Bound: bound}, func(x *X) {
 				if desc == "" {
 					return // the unchanged line
 				}
